@@ -242,13 +242,55 @@ def l56(q):
         check(ok is True, 'a genuine fresh datagram is accepted')
     got = [d for s, d in rx.incoming_messages]
     check(len(got) == q, 'every application message carried by accepted datagrams is delivered')
-    for a, b in zip(got, payloads):
-        check(a == b, 'delivered in order, byte-identical')
+    # the packer may let a small later message overtake one that does not fit the current datagram: the
+    # statement promises delivery, not order - every payload arrives exactly once, byte-identical
+    for b in payloads:
+        n = sum(1 for a in got if a is b or (rope.isrope(a) and rope.isrope(b) and rope.full_view_blob(a) is rope.full_view_blob(b)) or
+                (isinstance(a, bytes) and isinstance(b, bytes) and a == b))
+        check(n == 1, 'each payload is delivered exactly once, byte-identical')
 
 
 R.add('L5.6', l56, lambda tier: [dict(q=q) for q in ((1, 2) if tier == 'quick' else (1, 2, 3))],
       desc='sender -> real codec -> receiver: every APP message of an accepted datagram is delivered',
       expect=['every application message carried by accepted datagrams is delivered'])
+
+
+def l56b():
+    """a message that was *not* received before is delivered whatever its distance from the newest message
+    (late retransmissions after a lot of other traffic included): arbitrary message window, fresh datagram"""
+    import z3
+    clock = proto.clock_at(100.0)
+    tx = proto.mk_base(server=False, clock=clock)
+    rx = proto.mk_base(server=True, clock=clock)
+    cur = symint('msg_cur', 1, 65535)
+    bits = core.symbv('msg_bits', 256)
+    rx.bitfield_msg.current_seqnum = SeqNum(cur)
+    rx.bitfield_msg.bits = bits
+    e_ = symint('e', -32767, 32767)
+    y = SeqNum(cur) + (-e_)
+    if bool(e_ < 0):
+        seen = False
+    elif bool(e_ == 0):
+        seen = True
+    elif bool(e_ <= 256):
+        seen = SxBool(z3.Extract(256 - core.concrete(e_, cap=300), 256 - core.concrete(e_, cap=300), bits.z) == 1) if isinstance(bits, SxInt) and bits.z is not None else bool((int(bits) >> (256 - int(e_))) & 1)
+    else:
+        seen = False           # ghost: older than the window and never received (e.g. all earlier copies were lost)
+    assume(Not(seen))
+    payload, L = rope.blob('p', 0, 100)
+    tx.seq_sending = SeqNum(symint('pkt_seq', 1, 65534))
+    tx.seq_message = y - 1
+    tx.send(payload, RetryMode.RETRY_ON_TIMEOUT, None)
+    pkt = tx._build_packet_impl(100.0, False, 0.1)
+    raw = tx._encode_packet(pkt)
+    ok = rx._recv_datagram(conn.PacketHeader.from_bytes(True, raw), raw)
+    check(ok is True, 'the fresh datagram is accepted')
+    got = [d for s_, d in rx.incoming_messages]
+    check(len(got) == 1 and got[0] == payload, 'a message that was not received before is delivered, however late it arrives')
+
+
+R.add('L5.6b', l56b, [{}], desc='not-yet-received message at any ring offset (late retransmission) from an arbitrary message window: delivered',
+      expect=['a message that was not received before is delivered, however late it arrives'])
 
 
 # ------------------------------------------------------------------ L5.7 bounded loss scenario
